@@ -18,7 +18,8 @@ Inductive item :=
 | IRead (idx off size : N) (r : res (list N))
 | IXal (r : res bool)                        (* xattr reader load; false = NO_XATTRS, no reader *)
 | IXattr (idx : N) (r : option (res (list (list N * list N))))
-| IMeta (r : res (list N)).
+| IMeta (r : res (list N))
+| IComp (r : res unit).                      (* sqfs_compressor_create for the super block's compressor id *)
 
 Definition res_crash {A} (r : res A) : bool := match r with Crash => true | _ => false end.
 Definition res_oof {A} (r : res A) : bool := match r with OutOfFuel => true | _ => false end.
@@ -29,6 +30,7 @@ Definition item_crash (i : item) : bool :=
   | IStream _ r _ => res_crash r | IBlock _ _ r => res_crash r | IFrag _ r => res_crash r
   | IRead _ _ _ r => res_crash r | IXal r => res_crash r
   | IXattr _ (Some r) => res_crash r | IXattr _ None => false | IMeta r => res_crash r
+  | IComp r => res_crash r
   end.
 Definition item_oof (i : item) : bool :=
   match i with
@@ -36,6 +38,7 @@ Definition item_oof (i : item) : bool :=
   | IStream _ r _ => res_oof r | IBlock _ _ r => res_oof r | IFrag _ r => res_oof r
   | IRead _ _ _ r => res_oof r | IXal r => res_oof r
   | IXattr _ (Some r) => res_oof r | IXattr _ None => false | IMeta r => res_oof r
+  | IComp r => res_oof r
   end.
 
 Definition max_stream : N := 8388608.
@@ -205,3 +208,16 @@ Definition run_reader (codec : N -> list N -> N -> res (list N)) (depth efuel fu
   | QXattr => run_xattr codec img depth efuel fuel
   | QMeta ops => run_meta codec img fuel ops
   end.
+
+(* Every tool and the harness create the compressor named by the super block right after reading it
+   (sqfs_compressor_create); a back end that is not compiled into the library (config.h WITH_*, e.g. LZO)
+   answers SQFS_ERROR_UNSUPPORTED and nothing else is read.  [avail] = the back ends of the build. *)
+Definition gate_comp (avail : N -> bool) (items : list item) : list item :=
+  match items with
+  | ISuper (Ok s) :: _ => if avail (s_comp s) then items else [ISuper (Ok s); IComp (Err E_UNSUPPORTED)]
+  | _ => items
+  end.
+
+Definition run_reader_build (avail : N -> bool) (codec : N -> list N -> N -> res (list N)) (depth efuel fuel : nat)
+                            (img : list N) (q : query) : list item :=
+  gate_comp avail (run_reader codec depth efuel fuel img q).
